@@ -176,6 +176,7 @@ func c10Pay(c *fw.Ctx, i int) {
 	p := &codecs.H264Payloader{DisableStapA: !stapA}
 	var payloads [][]byte
 	var mtuOf []int // the MTU of the call that returned each payload
+	var kpPay keeper
 	var callDesc []string
 	baseMTU := mtu
 	varyMTU := len(calls) >= 2 && r.Chance(1, 4)
@@ -201,6 +202,13 @@ func c10Pay(c *fw.Ctx, i int) {
 		payloads = append(payloads, out...)
 		for range out {
 			mtuOf = append(mtuOf, mtu)
+		}
+		if len(out) <= 64 {
+			kpPay.addList(fmt.Sprintf("the payload list returned by call %d", ci), out)
+		}
+		if what, ch := kpPay.changed(); ch {
+			c.Fail("C10/payloader/earlier-result-changed-by-a-later-call", "a later Payload call changed "+what, fw.W("mtu", mtu))
+			return
 		}
 		d := ""
 		if varyMTU {
@@ -319,6 +327,7 @@ func c10Pay(c *fw.Ctx, i int) {
 	// IsPartitionHead exactly on first payloads
 	dp := &codecs.H264Packet{IsAVC: avc}
 	var outStream []byte
+	var outs [][]byte // what Unmarshal returned per payload, kept as returned and joined only when the stream is complete
 	for k, pl := range payloads {
 		var head bool
 		var out []byte
@@ -339,7 +348,10 @@ func c10Pay(c *fw.Ctx, i int) {
 			c.Fail("C10/depacketizer/rejects-payloader-output", fmt.Sprintf("H264Packet rejects payload %d: %v", k, err), wit())
 			return
 		}
-		outStream = append(outStream, out...)
+		outs = append(outs, out)
+	}
+	for _, o := range outs {
+		outStream = append(outStream, o...)
 	}
 	want := ref.H264Frame(expect, avc)
 	if !bytes.Equal(outStream, want) {
@@ -453,6 +465,7 @@ func c10Dec(c *fw.Ctx, i int) {
 	}
 	dp := &codecs.H264Packet{IsAVC: avc}
 	var outStream []byte
+	var outs [][]byte // what Unmarshal returned per payload, kept as returned and joined only when the stream is complete
 	for k, pl := range payloads {
 		var out []byte
 		var err error
@@ -465,7 +478,10 @@ func c10Dec(c *fw.Ctx, i int) {
 			c.Fail(fmt.Sprintf("C10/decoder/rejects-well-formed/type-%d", pl[0]&0x1F), fmt.Sprintf("H264Packet rejects well-formed payload %d: %v", k, err), wit())
 			return
 		}
-		outStream = append(outStream, out...)
+		outs = append(outs, out)
+	}
+	for _, o := range outs {
+		outStream = append(outStream, o...)
 	}
 	want := ref.H264Frame(units, avc)
 	if !bytes.Equal(outStream, want) {
